@@ -1,5 +1,6 @@
 import XsgModel.Proofs.TagOpt
 import XsgModel.Proofs.Necessity
+import XsgModel.Model.Absorb
 /-! the relational specification `Matches` and the per-name post-condition `Post` -/
 namespace Xsg
 
@@ -15,6 +16,8 @@ inductive Matches : Elem → List Node → Prop
       (hnone : ∀ k, getChild e.children k = none ↔ ∀ o ∈ occs, o.named k = [])
       (hman : ∀ k nec c, getChild e.children k = some (nec, c) → (nec = .man ↔ ∀ o ∈ occs, o.named k ≠ []))
       (hmulti : ∀ k nec c, getChild e.children k = some (nec, c) → (c.standalone = false ↔ ∃ o ∈ occs, 2 ≤ (o.named k).length))
+      (hlen : e.children.length = (orderOf occs).length)
+      (hpos : ∀ i k, (orderOf occs)[i]? = some k → ∃ nec c, getChild e.children k = some (nec, c) ∧ c.position = some i)
       (hsub : ∀ k nec c, getChild e.children k = some (nec, c) → Matches c (occs.flatMap (Node.named k)))
       : Matches e occs
 
@@ -25,6 +28,8 @@ theorem Matches.nodup {e occs} (h : Matches e occs) : (childNames e.children).No
 theorem Matches.hnone {e occs} (h : Matches e occs) : ∀ k, getChild e.children k = none ↔ ∀ o ∈ occs, o.named k = [] := by cases h; assumption
 theorem Matches.hman {e occs} (h : Matches e occs) : ∀ k nec c, getChild e.children k = some (nec, c) → (nec = .man ↔ ∀ o ∈ occs, o.named k ≠ []) := by cases h; assumption
 theorem Matches.hmulti {e occs} (h : Matches e occs) : ∀ k nec c, getChild e.children k = some (nec, c) → (c.standalone = false ↔ ∃ o ∈ occs, 2 ≤ (o.named k).length) := by cases h; assumption
+theorem Matches.hlen {e occs} (h : Matches e occs) : e.children.length = (orderOf occs).length := by cases h; assumption
+theorem Matches.hpos {e occs} (h : Matches e occs) : ∀ i k, (orderOf occs)[i]? = some k → ∃ nec c, getChild e.children k = some (nec, c) ∧ c.position = some i := by cases h; assumption
 theorem Matches.hsub {e occs} (h : Matches e occs) : ∀ k nec c, getChild e.children k = some (nec, c) → Matches c (occs.flatMap (Node.named k)) := by cases h; assumption
 
 /-- `Matches` looks only at text flag, attributes and children -/
@@ -32,7 +37,7 @@ theorem Matches.congr {e e' : Elem} {occs} (h : Matches e occs) (ht : e'.text = 
     (hc : e'.children = e.children) : Matches e' occs := by
   refine Matches.intro _ _ (by rw [ht]; exact h.text) (by rw [ha]; exact h.attrs) (by rw [ha]; exact h.attr_man)
     (by rw [hc]; exact h.nodup) (by rw [hc]; exact h.hnone) (by rw [hc]; exact h.hman) (by rw [hc]; exact h.hmulti)
-    (by rw [hc]; exact h.hsub)
+    (by rw [hc]; exact h.hlen) (by rw [hc]; exact h.hpos) (by rw [hc]; exact h.hsub)
 
 /-! ### `dedupNames` -/
 theorem mem_dedupNames {l : List Name} {a : Name} : a ∈ dedupNames l ↔ a ∈ l := by
